@@ -119,10 +119,115 @@ Proof.
   intro H. apply Permutation_length_1_inv in H. revert H. vm_compute. discriminate.
 Qed.
 
+(** * materialised chunks keep their nulls (dfd360c); before, only the first null of a column survived *)
+
+Lemma build_spec_l : forall rs, all_live (build rs) = rs.
+Proof.
+  intros [|r rs]; [reflexivity|]. unfold build, all_live. cbn [flat_map]. rewrite app_nil_r.
+  unfold live, fresh. induction (r :: rs) as [|x l IH]; [reflexivity|]. cbn [map filter fst snd]. f_equal. exact IH.
+Qed.
+
+Lemma build_pre_refuted_l : exists rs, all_live (build_pre rs) <> rs.
+Proof. exists [[CNull]; [CNull]]. vm_compute. discriminate. Qed.
+
+(** * DISTINCT (c4f453a): every row of the input once *)
+
+Lemma cell_eqb_eq : forall a b, cell_eqb a b = true <-> a = b.
+Proof.
+  intros [|x|x] [|y|y]; cbn [cell_eqb]; split; intro H; try reflexivity; try discriminate.
+  - apply str_eqb_eq in H. congruence.
+  - injection H as ->. apply str_eqb_eq. reflexivity.
+  - apply Z.eqb_eq in H. congruence.
+  - injection H as ->. apply Z.eqb_refl.
+Qed.
+
+Lemma drow_eqb_eq : forall a b, drow_eqb a b = true <-> a = b.
+Proof.
+  unfold drow_eqb. induction a as [|x a IH]; destruct b as [|y b]; cbn [list_eqb]; split; intro H; try reflexivity; try discriminate.
+  - apply andb_true_iff in H. destruct H as [H1 H2]. apply cell_eqb_eq in H1. apply IH in H2. congruence.
+  - injection H as -> ->. apply andb_true_iff. split; [apply cell_eqb_eq|apply IH]; reflexivity.
+Qed.
+
+Lemma seen_In : forall r seen, existsb (drow_eqb r) seen = true <-> In r seen.
+Proof.
+  intros r seen. rewrite existsb_exists. split.
+  - intros [x [H1 H2]]. apply drow_eqb_eq in H2. subst. exact H1.
+  - intro H. exists r. split; [exact H|apply drow_eqb_eq; reflexivity].
+Qed.
+
+Lemma dedup_seen_spec : forall rs seen,
+  NoDup (fst (dedup_seen seen rs)) /\
+  (forall r, In r (fst (dedup_seen seen rs)) <-> In r rs /\ ~ In r seen) /\
+  (forall r, In r (snd (dedup_seen seen rs)) <-> In r seen \/ In r rs).
+Proof.
+  induction rs as [|x rs IH]; intro seen; cbn [dedup_seen].
+  - cbn [fst snd In]. split; [constructor|]. split; intro r; tauto.
+  - destruct (existsb (drow_eqb x) seen) eqn:E.
+    + apply seen_In in E. destruct (IH seen) as [H1 [H2 H3]]. split; [exact H1|]. split; intro r.
+      * rewrite H2. cbn [In]. split; [tauto|]. intros [[->|H] Hn]; [contradiction|tauto].
+      * rewrite H3. cbn [In]. split; [tauto|]. intros [H|[->|H]]; tauto.
+    + assert (Hx : ~ In x seen) by (intro H; apply seen_In in H; congruence).
+      destruct (IH (x :: seen)) as [H1 [H2 H3]]. destruct (dedup_seen (x :: seen) rs) as [out seen'] eqn:Ed.
+      cbn [fst snd] in *. split; [|split]; [|intro r|intro r].
+      * constructor; [|exact H1]. rewrite H2. cbn [In]. tauto.
+      * cbn [In]. rewrite H2. cbn [In]. split.
+        -- intros [->|[H Hn]]; [tauto|]. split; [tauto|]. tauto.
+        -- intros [[->|H] Hn]; [left; reflexivity|].
+           destruct (drow_eqb x r) eqn:Exr; [apply drow_eqb_eq in Exr; left; exact Exr|].
+           right. split; [exact H|]. intros [Hc|Hc]; [|contradiction].
+           subst. rewrite (proj2 (drow_eqb_eq r r) eq_refl) in Exr. discriminate.
+      * rewrite H3. cbn [In]. tauto.
+Qed.
+Lemma distinct_chunks_spec : forall cs seen,
+  NoDup (all_live (distinct_chunks seen cs)) /\
+  (forall r, In r (all_live (distinct_chunks seen cs)) <-> In r (all_live cs) /\ ~ In r seen).
+Proof.
+  induction cs as [|c cs IH]; intro seen; cbn [distinct_chunks].
+  - split; [constructor|]. intro r. cbn. tauto.
+  - destruct (dedup_seen_spec (live c) seen) as [D1 [D2 D3]]. destruct (dedup_seen seen (live c)) as [out seen'] eqn:Ed.
+    cbn [fst snd] in *. destruct (IH seen') as [I1 I2]. rewrite all_live_app, build_spec_l.
+    assert (E : all_live (c :: cs) = live c ++ all_live cs) by reflexivity. split.
+    + assert (G : forall l1 l2 : list row, NoDup l1 -> NoDup l2 -> (forall z, In z l1 -> ~ In z l2) -> NoDup (l1 ++ l2)).
+      { intros l1 l2 N1 N2 D. induction N1 as [|z l1 Hz N1 IH1]; [exact N2|]. cbn [app]. constructor.
+        - rewrite in_app_iff. intros [Hc|Hc]; [contradiction|]. apply (D z (or_introl eq_refl) Hc).
+        - apply IH1. intros w Hw. apply D. right. exact Hw. }
+      apply G; [exact D1|exact I1|]. intros z Hz Hc. apply I2 in Hc. destruct Hc as [_ Hn]. apply Hn. apply D3. right.
+      apply D2 in Hz. tauto.
+    + intro r. rewrite E, !in_app_iff, D2, I2, D3. split.
+      * intros [[H Hn]|[H Hn]]; [tauto|]. split; [tauto|]. tauto.
+      * intros [[H|H] Hn]; [left; tauto|]. destruct (in_dec (list_eq_dec (fun a b : cell => ltac:(decide equality; [apply (list_eq_dec Z.eq_dec)|apply Z.eq_dec]))) r (live c)) as [Hl|Hl];
+          [left; tauto|right; tauto].
+Qed.
+
+Lemma distinct_tbl_spec_l : forall t t', distinct_tbl t = Done t' ->
+  t_cols t' = t_cols t /\ NoDup (all_live (t_chunks t')) /\
+  (forall r, In r (all_live (t_chunks t')) <-> In r (all_live (t_chunks t))).
+Proof.
+  intros t t' H. unfold distinct_tbl in H. destruct (negb (well_formed t)); [discriminate|]. injection H as <-.
+  cbn [t_cols t_chunks]. split; [reflexivity|]. destruct (distinct_chunks_spec (t_chunks t) []) as [H1 H2].
+  split; [exact H1|]. intro r. rewrite H2. cbn [In]. tauto.
+Qed.
+
+(** the witnesses of the repaired defects S1 and S7: wrong before, right now *)
+Lemma distinct_pre_refuted_l : exists n ds q,
+  q_distinct q = true /\ select_agrees_pre n ds q = false /\ select_agrees n ds q = true.
+Proof.
+  exists 2%nat, [Triple (Iri [97]) (Iri [112]) (Iri [98]); Triple (Iri [97]) (Iri [112]) (Iri [99]); Triple (Iri [98]) (Iri [112]) (Iri [99])],
+         (Query true (ProjVars [0%nat]) (PBgp [TPat (TVar 0) (TConst (Iri [112])) (TVar 1)]) [] None None).
+  vm_compute. repeat split; reflexivity.
+Qed.
+
+Lemma optional_null_witness_l :
+  select_agrees 3 [Triple (Iri [97]) (Iri [112]) (Iri [98]); Triple (Iri [98]) (Iri [112]) (Iri [99]);
+                   Triple (Iri [99]) (Iri [112]) (Iri [97]); Triple (Iri [98]) (Iri [110]) (lit_int [53])]
+    (Query false ProjStar (POpt (PBgp [TPat (TVar 0) (TConst (Iri [112])) (TVar 1)]) (PBgp [TPat (TVar 0) (TConst (Iri [110])) (TVar 2)]) None) [] None None)
+  = true.
+Proof. vm_compute. reflexivity. Qed.
+
 (** * the listed defects of the SPARQL layer are real: for each class a data set and a query on
     which the engine model (= the implementation, by the differential run) does not return the
     answer of the algebra *)
-Lemma select_refuted_l : forall c, 1 <= c <= 8 ->
+Lemma select_refuted_l : forall c, In c [2; 3; 4; 5; 6; 8] ->
   exists n ds q, k_class_g n ds q = c /\ select_agrees n ds q = false.
 Proof.
   pose (a := Iri [97]). pose (b := Iri [98]). pose (c0 := Iri [99]).
@@ -130,11 +235,8 @@ Proof.
   pose (v := fun i : nat => TVar i). pose (k := fun t : term => TConst t).
   pose (sel := fun (d : bool) (pr : proj) (pt : pat) => Query d pr pt [] None None).
   pose (d5 := [Triple a nn (lit_int [55]); Triple b nn (lit_int [49;50]); Triple c0 nn (lit_int [53])]).
-  intros c Hc.
-  assert (E : c = 1 \/ c = 2 \/ c = 3 \/ c = 4 \/ c = 5 \/ c = 6 \/ c = 7 \/ c = 8) by lia.
-  destruct E as [E|[E|[E|[E|[E|[E|[E|E]]]]]]]; subst c.
-  - exists 2%nat, [Triple a p b; Triple a p c0; Triple b p c0], (sel true (ProjVars [0%nat]) (PBgp [TPat (v 0%nat) (k p) (v 1%nat)])).
-    vm_compute. split; reflexivity.
+  intros c Hc. cbn [In] in Hc.
+  destruct Hc as [E|[E|[E|[E|[E|[E|[]]]]]]]; subst c.
   - exists 1%nat, [Triple a p a; Triple a p b], (sel false ProjStar (PBgp [TPat (v 0%nat) (k p) (v 0%nat)])).
     vm_compute. split; reflexivity.
   - exists 3%nat, [Triple a q (lit_plain [120]); Triple b q (lit_lang [120] [101;110])],
@@ -146,9 +248,6 @@ Proof.
     vm_compute. split; reflexivity.
   - exists 2%nat, [Triple a p b; Triple c0 q a],
       (sel false (ProjVars [0%nat;1%nat]) (PUnion (PBgp [TPat (v 0%nat) (k p) (v 1%nat)]) (PBgp [TPat (v 1%nat) (k q) (v 0%nat)]))).
-    vm_compute. split; reflexivity.
-  - exists 3%nat, [Triple a p b; Triple b p c0; Triple c0 p a; Triple b nn (lit_int [53])],
-      (sel false ProjStar (POpt (PBgp [TPat (v 0%nat) (k p) (v 1%nat)]) (PBgp [TPat (v 0%nat) (k nn) (v 2%nat)]) None)).
     vm_compute. split; reflexivity.
   - exists 2%nat, d5, (Query false (ProjVars [1%nat;0%nat]) (PBgp [TPat (v 0%nat) (k nn) (v 1%nat)]) [(1%nat,false);(0%nat,false)] None (Some 2%nat)).
     vm_compute. split; reflexivity.
